@@ -154,7 +154,9 @@ fn runs(out: &mut dyn Write, tier: &str, rng: &mut Rng, st: &mut Stats, tag: &st
         if f != "any" || rng.chance(1, 4) { extra.push("-f".into()); extra.push(f.to_string()); }
         let c = if c20 { *rng.pick(&FILTER_SPELLINGS[..10]) } else if c07 && rng.chance(1, 2) { *rng.pick(&FILTER_SPELLINGS[..10]) } else if rng.chance(1, 6) { *rng.pick(&FILTER_SPELLINGS[..]) } else { "any" };
         if c != "any" { extra.push("-c".into()); extra.push(c.to_string()); }
-        if (c20 || c07) && !flags.contains('t') { extra.push("-t".into()); flags.push('t'); }
+        // C20 always looks at the table; C07 at the table or, now and then, at the -v lines alone (-m must reach them too)
+        if (c20 || (c07 && !(flags.contains('v') && i % 2 == 0))) && !flags.contains('t') { extra.push("-t".into()); flags.push('t'); }
+        if c07 && i % 8 == 5 && !flags.contains('v') { extra.retain(|a| a != "-t"); flags.retain(|ch| ch != 't'); extra.push("-v".into()); flags.push('v'); }
         // half of the C20 runs: the filter of the rows is the opposite of the direction of -c
         let f = if c20 && i % 2 == 0 && !extra.contains(&"-f".to_string()) {
             let opp = if FILTER_SPELLINGS[..5].contains(&c) { FILTER_SPELLINGS[5 + (i / 2) % 5] } else { FILTER_SPELLINGS[(i / 2) % 5] };
